@@ -169,11 +169,14 @@ def run(tier):
     c08_ser.run_part(R, tier)
     from harness import probes
     probes.discriminator_probe(R, {'mutation', 'options'})
+    probes.constructor_probe(R)
     return R.finish(
         rule="every deserialization case is re-run with no_copy flipped, through the precomputed deserialization_method, "
              "and with settings.deserialization.override_dataclass_constructors flipped; results (values with runtime "
              "classes, or full error lists) must be identical; identity of containers is checked against the input; "
-             "serialization side: check_type, no_copy, all 2^5 PassThroughOptions, serialization_method")
+             "serialization side: check_type, no_copy, all 2^5 PassThroughOptions, serialization_method; plus dataclasses whose "
+             "construction is observable (own / inherited __post_init__, hand-written __init__, init=False, InitVar, __slots__, "
+             "__setattr__, __new__, metaclass): override_dataclass_constructors x no_copy x function/method give the same result")
 
 
 def replay(data):
